@@ -180,6 +180,8 @@ pub struct World {
     pub file_bytes_written: usize,
     pub eintr_streak: u32,
     pub log_dropped: u64,
+    pub log_hash: u64,
+    pub logbuf: String,
 }
 
 pub static WORLD: Mutex<Option<World>> = Mutex::new(None);
@@ -229,16 +231,41 @@ fn splitmix(x: &mut u64) -> u64 {
     z ^ (z >> 31)
 }
 
+/// Records one event of the simulated execution (formatted into a reused buffer).
+macro_rules! ev {
+    ($w:expr, $($arg:tt)*) => {{
+        use ::std::fmt::Write as _;
+        let mut buf = ::std::mem::take(&mut $w.logbuf);
+        buf.clear();
+        let _ = write!(buf, $($arg)*);
+        $w.logbuf = buf;
+        $w.commit_log();
+    }};
+}
+
+/// true: executions keep their event log as text (transcripts); false: only its hash
+pub static KEEP_LOG: AtomicBool = AtomicBool::new(false);
+
 /// Event-log lines kept per execution; beyond that only a count is kept (large inputs read
 /// one byte at a time would otherwise log hundreds of thousands of lines).
 pub const LOG_CAP: usize = 4000;
 
 impl World {
-    pub fn logline(&mut self, s: String) {
-        if self.log.len() < LOG_CAP {
-            self.log.push(s);
-        } else {
-            self.log_dropped += 1;
+    /// Commits the event line currently in `logbuf`: always hashed, kept as text only when a
+    /// transcript was asked for (replay, `gen --run`).
+    pub fn commit_log(&mut self) {
+        for b in self.logbuf.as_bytes() {
+            self.log_hash ^= *b as u64;
+            self.log_hash = self.log_hash.wrapping_mul(0x100000001b3);
+        }
+        self.log_hash ^= 10;
+        self.log_hash = self.log_hash.wrapping_mul(0x100000001b3);
+        if KEEP_LOG.load(Ordering::Relaxed) {
+            if self.log.len() < LOG_CAP {
+                self.log.push(self.logbuf.clone());
+            } else {
+                self.log_dropped += 1;
+            }
         }
     }
     fn bump(&mut self, k: &'static str) {
@@ -292,7 +319,7 @@ pub fn with_world<R>(f: impl FnOnce(&mut World) -> R) -> R {
 
 fn crash(why: &'static str) -> ! {
     with_world(|w| {
-        w.logline(format!("crash {}", why));
+        ev!(w, "crash {}", why);
         w.bump("crash_fired");
     });
     halt(Halt::Crash(why))
@@ -356,7 +383,7 @@ pub mod simstd {
             }
         }
         pub fn exit(code: i32) -> ! {
-            crate::world::with_world(|w| w.logline(format!("exit {}", code)));
+            crate::world::with_world(|w| ev!(w, "exit {}", code));
             crate::world::halt(crate::world::Halt::Exit(code))
         }
     }
@@ -427,7 +454,7 @@ pub mod simstd {
                     if let Some(HardFault::Eacces(p)) = &w.plan.hard {
                         if *p == path {
                             w.bump("eacces_fired");
-                            w.logline(format!("open {} -> EACCES", path));
+                            ev!(w, "open {} -> EACCES", path);
                             return Err(io::Error::from_raw_os_error(libc::EACCES));
                         }
                     }
@@ -436,24 +463,24 @@ pub mod simstd {
                         return Err(io::Error::from_raw_os_error(libc::EINVAL));
                     }
                     if self.create_new && exists {
-                        w.logline(format!("open {} -> EEXIST", path));
+                        ev!(w, "open {} -> EEXIST", path);
                         return Err(io::Error::from_raw_os_error(libc::EEXIST));
                     }
                     if !exists {
                         if writing && (self.create || self.create_new) {
                             w.fs.insert(path.clone(), Vec::new());
-                            w.logline(format!("create {}", path));
+                            ev!(w, "create {}", path);
                         } else {
                             w.bump("enoent_fired");
-                            w.logline(format!("open {} -> ENOENT", path));
+                            ev!(w, "open {} -> ENOENT", path);
                             return Err(io::Error::from_raw_os_error(libc::ENOENT));
                         }
                     } else if writing && self.truncate {
                         let old = w.fs.get(&path).map(|v| v.len()).unwrap_or(0);
                         w.fs.insert(path.clone(), Vec::new());
-                        w.logline(format!("truncate {} (was {} bytes)", path, old));
+                        ev!(w, "truncate {} (was {} bytes)", path, old);
                     } else {
-                        w.logline(format!("open {} ({})", path, if writing { "w" } else { "r" }));
+                        ev!(w, "open {} ({})", path, if writing { "w" } else { "r" });
                     }
                     Ok(File {
                         path: path.clone(),
@@ -496,7 +523,7 @@ pub mod simstd {
                 OpenOptions::new()
             }
             pub fn sync_all(&self) -> io::Result<()> {
-                with_world(|w| w.logline(format!("fsync {}", self.path)));
+                with_world(|w| ev!(w, "fsync {}", self.path));
                 Ok(())
             }
             pub fn sync_data(&self) -> io::Result<()> {
@@ -504,7 +531,7 @@ pub mod simstd {
             }
             pub fn set_len(&self, size: u64) -> io::Result<()> {
                 with_world(|w| {
-                    w.logline(format!("set_len {} {}", self.path, size));
+                    ev!(w, "set_len {} {}", self.path, size);
                     if let Some(v) = w.fs.get_mut(&self.path) {
                         v.resize(size as usize, 0);
                     }
@@ -525,11 +552,11 @@ pub mod simstd {
                 w.n_reads += 1;
                 if w.plan.hard == Some(HardFault::EioRead(n_call)) {
                     w.bump("eio_read_fired");
-                    w.logline(format!("read {} -> EIO", f.path));
+                    ev!(w, "read {} -> EIO", f.path);
                     return Err(io::Error::from_raw_os_error(libc::EIO));
                 }
                 if w.eintr(w.plan.eintr_read, "eintr_read_fired") {
-                    w.logline(format!("read {} -> EINTR", f.path));
+                    ev!(w, "read {} -> EINTR", f.path);
                     return Err(io::Error::from(io::ErrorKind::Interrupted));
                 }
                 let len = w.fs.get(&f.path).map(|v| v.len()).unwrap_or(0);
@@ -551,7 +578,7 @@ pub mod simstd {
                         }
                     }
                 }
-                w.logline(format!("read {} @{} {}/{}", f.path, f.pos, n, buf.len()));
+                ev!(w, "read {} @{} {}/{}", f.path, f.pos, n, buf.len());
                 f.pos += n;
                 Ok(n)
             })
@@ -566,11 +593,11 @@ pub mod simstd {
                 w.n_writes += 1;
                 if w.plan.hard == Some(HardFault::EnospcWrite(n_call)) {
                     w.bump("enospc_write_fired");
-                    w.logline(format!("write {} -> ENOSPC", f.path));
+                    ev!(w, "write {} -> ENOSPC", f.path);
                     return Err(io::Error::from_raw_os_error(libc::ENOSPC));
                 }
                 if w.eintr(w.plan.eintr_write, "eintr_write_fired") {
-                    w.logline(format!("write {} -> EINTR", f.path));
+                    ev!(w, "write {} -> EINTR", f.path);
                     return Err(io::Error::from(io::ErrorKind::Interrupted));
                 }
                 let mut n = w.chunk(w.plan.short_write, buf.len(), "short_write_fired");
@@ -592,7 +619,7 @@ pub mod simstd {
                 let overlap = (file.len() - f.pos).min(n);
                 file[f.pos..f.pos + overlap].copy_from_slice(&buf[..overlap]);
                 file.extend_from_slice(&buf[overlap..n]);
-                w.logline(format!("write {} @{} {}/{}", f.path, f.pos, n, buf.len()));
+                ev!(w, "write {} @{} {}/{}", f.path, f.pos, n, buf.len());
                 f.pos += n;
                 w.file_bytes_written += n;
                 Ok((n, die))
@@ -691,7 +718,7 @@ pub mod simstd {
         pub fn remove_file<P: AsRef<::std::path::Path>>(path: P) -> io::Result<()> {
             let path = path.as_ref().to_string_lossy().into_owned();
             with_world(|w| {
-                w.logline(format!("unlink {}", path));
+                ev!(w, "unlink {}", path);
                 match w.fs.remove(&path) {
                     Some(_) => Ok(()),
                     None => Err(io::Error::from_raw_os_error(libc::ENOENT)),
@@ -703,7 +730,7 @@ pub mod simstd {
             let from = from.as_ref().to_string_lossy().into_owned();
             let to = to.as_ref().to_string_lossy().into_owned();
             with_world(|w| {
-                w.logline(format!("rename {} {}", from, to));
+                ev!(w, "rename {} {}", from, to);
                 match w.fs.remove(&from) {
                     Some(v) => {
                         w.fs.insert(to, v);
@@ -758,7 +785,7 @@ pub mod simstd {
             fn is_terminal(&self) -> bool {
                 with_world(|w| {
                     let t = w.stdin_tty;
-                    w.logline(format!("isatty <stdin> -> {}", t));
+                    ev!(w, "isatty <stdin> -> {}", t);
                     t
                 })
             }
@@ -790,16 +817,16 @@ pub mod simstd {
                 w.n_reads += 1;
                 if w.stdin_tty {
                     // a terminal with nobody typing: model as immediate EOF
-                    w.logline("read <stdin:tty> -> EOF".into());
+                    ev!(w, "read <stdin:tty> -> EOF");
                     return Ok(0);
                 }
                 if w.plan.hard == Some(HardFault::EioRead(n_call)) {
                     w.bump("eio_read_fired");
-                    w.logline("read <stdin> -> EIO".into());
+                    ev!(w, "read <stdin> -> EIO");
                     return Err(Error::from_raw_os_error(libc::EIO));
                 }
                 if w.eintr(w.plan.eintr_read, "eintr_read_fired") {
-                    w.logline("read <stdin> -> EINTR".into());
+                    ev!(w, "read <stdin> -> EINTR");
                     return Err(Error::from(ErrorKind::Interrupted));
                 }
                 let avail = w.stdin.len() - w.stdin_pos;
@@ -813,7 +840,7 @@ pub mod simstd {
                         *w.counters.entry("probe_multibyte_split_by_short_read").or_insert(0) += 1;
                     }
                 }
-                w.logline(format!("read <stdin> @{} {}/{}", p, n, buf.len()));
+                ev!(w, "read <stdin> @{} {}/{}", p, n, buf.len());
                 w.stdin_pos += n;
                 Ok(n)
             })
@@ -870,17 +897,17 @@ pub mod simstd {
                 if let Some(HardFault::EpipeStdout(k)) = w.plan.hard {
                     if n_call >= k {
                         w.bump("epipe_stdout_fired");
-                        w.logline("write <stdout> -> EPIPE".into());
+                        ev!(w, "write <stdout> -> EPIPE");
                         return Err(Error::from_raw_os_error(libc::EPIPE));
                     }
                 }
                 if w.eintr(w.plan.eintr_write, "eintr_write_fired") {
-                    w.logline("write <stdout> -> EINTR".into());
+                    ev!(w, "write <stdout> -> EINTR");
                     return Err(Error::from(ErrorKind::Interrupted));
                 }
                 let n = w.chunk(w.plan.short_write, buf.len(), "short_write_fired");
                 w.stdout.extend_from_slice(&buf[..n]);
-                w.logline(format!("write <stdout> {}/{}", n, buf.len()));
+                ev!(w, "write <stdout> {}/{}", n, buf.len());
                 Ok(n)
             })
         }
@@ -902,7 +929,7 @@ pub mod simstd {
             fn write(&mut self, buf: &[u8]) -> Result<usize> {
                 with_world(|w| {
                     w.stderr.extend_from_slice(buf);
-                    w.logline(format!("write <stderr> {}", buf.len()));
+                    ev!(w, "write <stderr> {}", buf.len());
                 });
                 Ok(buf.len())
             }
@@ -947,7 +974,7 @@ pub mod simatty {
     pub fn is(s: Stream) -> bool {
         match s {
             Stream::Stdin => crate::world::with_world(|w| {
-                w.logline(format!("isatty <stdin> -> {}", w.stdin_tty));
+                ev!(w, "isatty <stdin> -> {}", w.stdin_tty);
                 w.stdin_tty
             }),
             _ => false,
@@ -980,7 +1007,7 @@ pub mod simclap {
                         } else {
                             w.stdout.extend_from_slice(rendered.as_bytes());
                         }
-                        w.logline(format!("clap exit {}", code));
+                        ev!(w, "clap exit {}", code);
                     });
                     crate::world::halt(crate::world::Halt::Exit(code))
                 }
@@ -1046,6 +1073,7 @@ pub struct Outcome {
     pub stdout: Vec<u8>,
     pub stderr: Vec<u8>,
     pub log: Vec<String>,
+    pub log_hash: u64,
     pub counters: BTreeMap<&'static str, u64>,
     pub clock: ClockReport,
 }
@@ -1156,26 +1184,27 @@ pub fn execute(fs: &mut Fs, ex: &Exec, entry: fn()) -> Outcome {
         }
     };
     if let (Status::Exit(_), Some(CrashAt::AtExit)) = (&status, &world.plan.crash) {
-        world.log.push("crash at_exit".into());
+        ev!(world, "crash at_exit");
         *world.counters.entry("crash_fired").or_insert(0) += 1;
         status = Status::Crash("at_exit");
     }
     match &status {
-        Status::Exit(c) => world.log.push(format!("status exit={}", c)),
-        Status::Panic(m) => world.log.push(format!("status panic={}", m)),
-        Status::Crash(w) => world.log.push(format!("status crash={}", w)),
+        Status::Exit(c) => ev!(world, "status exit={}", c),
+        Status::Panic(m) => ev!(world, "status panic={}", m),
+        Status::Crash(w) => ev!(world, "status crash={}", w),
     }
     if world.log_dropped > 0 {
         let n = world.log_dropped;
-        world.log.push(format!("(+{} further I/O events not logged)", n));
+        ev!(world, "(+{} further I/O events not logged)", n);
     }
-    world.log.push(format!("clock reads={} first={:?}", clock.reads, clock.first));
+    ev!(world, "clock reads={} first={:?}", clock.reads, clock.first);
     *fs = std::mem::take(&mut world.fs);
     Outcome {
         status,
         stdout: world.stdout,
         stderr: world.stderr,
         log: world.log,
+        log_hash: world.log_hash,
         counters: world.counters,
         clock,
     }
